@@ -152,7 +152,7 @@ namespace parmcb {
     }
 
 #ifdef PARMCB_HAVE_TBB
-    void set_global_tbb_concurrency(const std::size_t hardware_concurrency_hint) {
+    inline void set_global_tbb_concurrency(const std::size_t hardware_concurrency_hint) {
 #if TBB_VERSION_MAJOR > 2020
     	oneapi::tbb::global_control global_limit(oneapi::tbb::global_control::max_allowed_parallelism, hardware_concurrency_hint);
 #else
